@@ -26,6 +26,9 @@ static void summarize_asan(const char *txt, char *out, size_t cap) {
   char kind[64] = "-", rw[16] = "-", fn[200] = "-", loc[320] = "-";
   if (!e) { snprintf(out, cap, "asan ? - - -"); return; }
   sscanf(e + 25, "%63s", kind);
+  if (!strcmp(kind, "attempting")) {          /* "attempting double-free on ...", "attempting free on address which was not malloc()-ed" */
+    strcpy(kind, strstr(e, "attempting double-free") ? "double-free" : "bad-free");
+  }
   { const char *r = strstr(e, "\nREAD of size"); const char *w = strstr(e, "\nWRITE of size");
     if (w && (!r || w < r)) strcpy(rw, "WRITE"); else if (r) strcpy(rw, "READ");
     else if (strstr(e, "caused by a WRITE memory access")) strcpy(rw, "WRITE");
